@@ -37,8 +37,8 @@ type PCase struct {
 	Gzip     bool     `json:"gzip"`
 	Payload  string   `json:"payloadKind"`
 	Size     int      `json:"size"`
-	Reads    []PChunk `json:"reads"` // how the body is handed out, one entry per Read call
-	CutAt    int      `json:"cutAt"` // -1: complete; otherwise the body breaks off after this many (wire) bytes
+	Reads    []PChunk `json:"reads"`  // how the body is handed out, one entry per Read call
+	CutAt    int      `json:"cutAt"`  // -1: complete; otherwise the body breaks off after this many (wire) bytes
 	CutErr   string   `json:"cutErr"` // how it breaks off: "unexpected EOF" | "reset" | "timeout"
 }
 
